@@ -17,6 +17,7 @@ Record accepted (m : dmap) : Prop := {
 }.
 
 Section Push.
+Variable Prm : lparams.
 Variable m : dmap.
 Hypothesis Acc : accepted m.
 Let g := m_g m.
@@ -344,7 +345,7 @@ Proof.
     rewrite E1. apply IH; [assumption|]. intros x Hx. apply Hk. right. assumption.
 Qed.
 
-Theorem push_tight_ok : exists L, push_tight m = POk L /\ pinv L.
+Theorem push_tight_ok : exists L, push_tight Prm m = POk L /\ pinv L.
 Proof.
   unfold push_tight. apply push_all_ok; [apply pinv_init|].
   intros u Hu. apply in_rev in Hu. unfold sorted_nodes in Hu. apply In_sort_by in Hu. assumption.
